@@ -229,6 +229,11 @@ type (
 // exempt from the shared-write invariant: the write is synchronised).
 var SyncOps int64
 
+// ExclOps counts the exclusive ones among them (Mutex.Lock, RWMutex.Lock,
+// TryLock, Once.Do): a write performed under read locks only is NOT
+// synchronised against another holder of the read lock.
+var ExclOps int64
+
 func blocked(label string) {
 	if Hooks.Blocked != nil {
 		Hooks.Blocked(label)
@@ -243,6 +248,7 @@ type Mutex struct{ m sync.Mutex }
 
 func (m *Mutex) Lock() {
 	atomic.AddInt64(&SyncOps, 1)
+	atomic.AddInt64(&ExclOps, 1)
 	if Hooks.Point != nil {
 		Hooks.Point("lock", nil)
 	}
@@ -251,12 +257,13 @@ func (m *Mutex) Lock() {
 	}
 }
 func (m *Mutex) Unlock()       { m.m.Unlock() }
-func (m *Mutex) TryLock() bool { atomic.AddInt64(&SyncOps, 1); return m.m.TryLock() }
+func (m *Mutex) TryLock() bool { atomic.AddInt64(&SyncOps, 1); atomic.AddInt64(&ExclOps, 1); return m.m.TryLock() }
 
 type RWMutex struct{ m sync.RWMutex }
 
 func (m *RWMutex) Lock() {
 	atomic.AddInt64(&SyncOps, 1)
+	atomic.AddInt64(&ExclOps, 1)
 	if Hooks.Point != nil {
 		Hooks.Point("lock", nil)
 	}
@@ -275,7 +282,7 @@ func (m *RWMutex) RLock() {
 	}
 }
 func (m *RWMutex) RUnlock()        { m.m.RUnlock() }
-func (m *RWMutex) TryLock() bool   { atomic.AddInt64(&SyncOps, 1); return m.m.TryLock() }
+func (m *RWMutex) TryLock() bool   { atomic.AddInt64(&SyncOps, 1); atomic.AddInt64(&ExclOps, 1); return m.m.TryLock() }
 func (m *RWMutex) TryRLock() bool  { atomic.AddInt64(&SyncOps, 1); return m.m.TryRLock() }
 func (m *RWMutex) RLocker() Locker { return (*rlocker)(m) }
 
